@@ -65,8 +65,8 @@ def bases(rng, lib, n_generated=3):
 def plan(tier, seed):
     q = tier == "quick"
     specs = [{"kind": "systematic", "base": b} for b in range(4)]
-    for _ in range(6 if q else 14):
-        specs.append({"kind": "random", "count": 1500 if q else 26000, "double": not q})
+    for _ in range(8 if q else 24):
+        specs.append({"kind": "random", "count": 5000 if q else 60000, "double": not q})
     return specs
 
 
